@@ -46,22 +46,49 @@ Proof. intros Hn Hj. rewrite (run_num_spec n Hn k 0 j) by lia. f_equal. Qed.
 (* ---- N for SPLIT_BY_FIXED_BLKS *)
 (* the double-precision computation equals the exact floor of 1/(rps*T) for every rps a DIFOP can
    announce (rpm is 16 bits: rps <= 1092), for every mechanical descriptor: finite sweep *)
-Definition exact_blks (d : desc) (rps : Z) : Z :=
+Definition tabs_of (d : desc) : list tab := [d_tab_base d; d_tab_alt1 d; d_tab_alt2 d].
+(* variant tables: which firing/lens table is in force *)
+Lemma cur_tab_in d s : In (cur_tab d s) (tabs_of d).
+Proof.
+  unfold cur_tab, tabs_of. destruct (d_variant d); cbn; auto.
+  - destruct (s_echo_dual s); auto.
+  - destruct (s_variant s =? 1); auto.
+  - destruct (s_first_pkt s); auto. destruct (s_variant s =? 3); auto.
+Qed.
+Definition exact_blks_bd (bd : dy) (rps : Z) : Z :=
   (* floor(1 / (rps * m * 2^e)) with BLOCK_DURATION = m * 2^e, e < 0 *)
-  let bd := d_block_duration d in (2 ^ (- de bd)) / (rps * dm bd).
+  (2 ^ (- de bd)) / (rps * dm bd).
+Definition exact_blks (d : desc) (rps : Z) : Z := exact_blks_bd (d_block_duration d) rps.
+(* every block period a decoder of this type can hold: the constructor's and those of its variant tables (Bpearl v4: 55.56 us) *)
+Definition bds_of (d : desc) : list dy := d_block_duration d :: map t_block_dur (tabs_of d).
 Definition blks_sweep (d : desc) : bool :=
-  forallb (fun rps => blks_per_frame_of d rps =? exact_blks d rps) (zrange 1 1093).
+  forallb (fun bd => forallb (fun rps => blks_per_frame_bd bd rps =? exact_blks_bd bd rps) (zrange 1 1093)) (bds_of d).
 Definition mech_descs : list desc := filter (fun d => match d_family d with Mech => true | Mems => false end) all_descs.
 
 Lemma blks_sweep_all : forallb blks_sweep mech_descs = true.
 Proof. vm_compute. reflexivity. Qed.
 
+Theorem blks_per_frame_bd_exact d bd rps : In d mech_descs -> In bd (bds_of d) -> 1 <= rps < 1093 ->
+  blks_per_frame_bd bd rps = exact_blks_bd bd rps.
+Proof.
+  intros Hd Hb Hr. pose proof blks_sweep_all as H. rewrite forallb_forall in H. specialize (H d Hd).
+  unfold blks_sweep in H. rewrite forallb_forall in H. specialize (H bd Hb).
+  rewrite forallb_forall in H. specialize (H rps (zrange_In 1 1093 rps Hr)). lia.
+Qed.
 Theorem blks_per_frame_exact d rps : In d mech_descs -> 1 <= rps < 1093 ->
   blks_per_frame_of d rps = exact_blks d rps.
-Proof.
-  intros Hd Hr. pose proof blks_sweep_all as H. rewrite forallb_forall in H. specialize (H d Hd).
-  unfold blks_sweep in H. rewrite forallb_forall in H. specialize (H rps (zrange_In 1 1093 rps Hr)). lia.
-Qed.
+Proof. intros Hd Hr. apply (blks_per_frame_bd_exact d); [exact Hd | left; reflexivity | exact Hr]. Qed.
+Lemma cur_bd_in d s : In (cur_bd d s) (bds_of d).
+Proof. right. unfold cur_bd. apply (in_map t_block_dur), cur_tab_in. Qed.
+(* the constructor's period is the base table's; only the Bpearl has a table with another period *)
+Definition bd_tabs_ok (d : desc) : bool :=
+  dy_eqb (t_block_dur (d_tab_base d)) (d_block_duration d) &&
+  match d_variant d with
+  | VarBpv4 => true
+  | _ => forallb (fun t => dy_eqb (t_block_dur t) (d_block_duration d)) (tabs_of d)
+  end.
+Lemma bd_tabs_all : forallb bd_tabs_ok mech_descs = true.
+Proof. vm_compute. reflexivity. Qed.
 
 (* a fresh decoder: 600 rpm single return *)
 Definition init_split_ok (d : desc) : bool :=
@@ -76,13 +103,13 @@ Lemma difop_split_blks d wp s b : d_family d = Mech ->
   let rps0 := be16 b (d_off_difop_rpm d) / 60 in
   let rps := if rps0 =? 0 then 10 else rps0 in
   s_echo_dual s' = echo_of d (u8 b (d_off_difop_return_mode d)) /\
-  s_blks_per_frame s' = blks_per_frame_of d rps /\
+  s_blks_per_frame s' = blks_per_frame_bd (cur_bd d s) rps /\
   s_split_blks s' = split_blks_of d (s_echo_dual s') (s_blks_per_frame s').
 Proof.
   intros Hf. unfold decode_difop. rewrite Hf. cbv zeta.
   unfold difop_devinfo.
   assert (H1 : s_blks_per_frame (decode_difop_common d s b) =
-               blks_per_frame_of d (if be16 b (d_off_difop_rpm d) / 60 =? 0 then 10 else be16 b (d_off_difop_rpm d) / 60)).
+               blks_per_frame_bd (cur_bd d s) (if be16 b (d_off_difop_rpm d) / 60 =? 0 then 10 else be16 b (d_off_difop_rpm d) / 60)).
   { unfold decode_difop_common. cbv zeta. destruct (s_angles_ready s); [reflexivity|].
     destruct (load_angles d b 0 _ [] []) as [[vs hs]|]; reflexivity. }
   destruct (wp && d_has_devinfo d); [destruct (d_has_devstatus d)|];
